@@ -9,6 +9,7 @@ from ..engine import finite, flow
 from ..engine.mutate import Mutant, Variant, in_function, replace_once
 from ..engine.runner import Rule
 from ..engine.source import AnalysisError
+from . import shared
 from .common import callee_name, calls_in, kwarg
 
 EXPLANATION = (
@@ -79,9 +80,7 @@ def rule_guard_pairs(ctx):
     lines = {nm: ln for nm, ln in _order(rt, {"_find_owning_static_tree", "create", "declare_static_files"}).items()}
     scan_line = min((s.site.lineno for s in scan), default=10 ** 9)
     ctx.check(lines.get("_find_owning_static_tree", 10 ** 9) < lines.get("create", 0) and scan_line < lines.get("create", 0), rt.fq, "owner lookup and scan precede the creation of the tree", "the tree is created before the conflicts are checked", "before create")
-    adopt = [s for s in stm if re.search(r"SELECT label FROM node JOIN file", s.text)]
-    ok = bool(adopt) and all(re.search(r"WHERE node \. detached AND substr", s.text) and "state" not in s.text.split("WHERE", 1)[1] and " AND " not in s.text.split("WHERE node . detached AND", 1)[1] for s in adopt)
-    ctx.check(ok, rt.fq, "adoption sweep takes every detached file under the tree (no state filter)", "some detached leftovers under a new tree stay with their old creator: a recycled step gets an output inside the tree", "all detached rows")
+    shared.check_tree_adopts_all_detached(ctx, "some detached leftovers under a new tree stay with their old creator: a recycled step gets an output inside the tree")
     # glob-then-product
     ds = ctx.prog.func("workflow.Workflow.define_step")
     o = _order(ds, {"_raise_if_glob_match", "try_recycle", "create", "_raise_if_step_exists", "_check_declaration", "_raise_if_out_and_vol_overlap", "_raise_if_forbidden_target", "_raise_if_dir_inputs"})
